@@ -148,7 +148,7 @@ func verifSameRouting(a, b *verifSnap, label string) {
 func VerifH_usc() {
 	w := verifMkWorld()
 	gb, cc := w.gb, w.cc
-	ai := verifInt("arg_sc")
+	ai := verifCase("arg_sc")
 	verifAssume(ai >= 0 && ai <= vM+1)
 	var sc balancer.SubConn
 	switch ai {
